@@ -370,7 +370,11 @@ class ContentIndexParser:
         return {
             "sheets": sheets,
             "meta": {
-                "user_models_module": self.user_models_module.__name__,
+                "user_models_module": (
+                    self.user_models_module.__name__
+                    if self.user_models_module
+                    else None
+                ),
                 "version": "0.1.0",
             },
         }
